@@ -21,6 +21,7 @@ import (
 	"go/ast"
 	"go/token"
 	"go/types"
+	"sort"
 	"strconv"
 	"strings"
 )
@@ -458,4 +459,661 @@ func (c *trCtx) nilableValue(e ast.Expr, fieldTy types.Type) string {
 	}
 	trFail(e.Pos(), "a field whose nil-ness is observed may only be set from nil, a slice literal, make or another such field: the nil-ness of this value is not tracked")
 	return ""
+}
+
+// ============================================================================================== journal.Print (part 2)
+//
+//   compare.Sort(X, F)     as a statement, F a translated function: `X := ext<N> X` — sort.Slice is unstable, so WHICH permutation
+//                          sorted by F comes back is not specified; it is a deterministic function of the slice, which becomes a
+//                          parameter `ext<N> : List T → List T` (listed in the externals); the agreement theorems hold for every
+//                          function that returns a permutation of its argument sorted by F
+//   x := &T{F: func…}      a CLOSURE RECORD: a struct literal with function literals that assign captured variables (`p.UpdatePadding(t)`
+//                          on the captured printer). The record is not a value in the translation; each literal becomes a definition
+//                          `Fn.x.F (written captured…) (read captured…) (params…) : (written captured… × results)` (state passing).
+//                          The variable may only be passed to an effect call
+//   r := recv.M(args…)     an EFFECT CALL: M is a function of /repo that is not translated (journal.Journal.Process: cpr.Seq) and gets
+//                          pointers to translated state — the receiver variable, closure records. What it does is not translated: the
+//                          new values of everything it can write through (the receiver, the captured variables the records' literals
+//                          assign) and its results are ONE extra parameter `ext<N> : (new values… × results…)` of the translated
+//                          function; the agreement theorem fixes it to the hand-written meaning of the callee built from the
+//                          translated literals. The written variables are rebound
+//   f(x) with x *T for a parameter of a sum-type interface   the constructor of the dynamic type is applied (`Directive.Price pr`)
+//   w io.Writer moved      `p := printer.New(w)` with New = `return &T{fld: w}`: from there on the sink lives in `p.fld`; w may not be
+//                          used again; the translated function returns the final text of the sink first (as for every parameter that
+//                          is written through)
+
+const trCompareSort = trKnutPath + "lib/common/compare.Sort"
+
+// sortStmtParts: the statement compare.Sort(X, F)
+func (t *trTranslator) isSortStmt(info *types.Info, x *ast.CallExpr) bool {
+	sel, ok := trUnparen(x.Fun).(*ast.SelectorExpr)
+	if !ok || len(x.Args) != 2 {
+		return false
+	}
+	if _, isSel := info.Selections[sel]; isSel {
+		return false
+	}
+	fo, _ := info.Uses[sel.Sel].(*types.Func)
+	return fo != nil && fo.Origin().FullName() == trCompareSort
+}
+
+func (c *trCtx) sortStmt(call *ast.CallExpr, k trK) (trLines, bool) {
+	if !c.t.isSortStmt(c.info(), call) {
+		return nil, false
+	}
+	fo := c.calledFunc(call)
+	c.t.checkPinned(fo, call.Pos())
+	// the comparator: a translated function
+	var cmp *types.Func
+	switch f := trUnparen(call.Args[1]).(type) {
+	case *ast.Ident:
+		cmp, _ = c.info().Uses[f].(*types.Func)
+	case *ast.SelectorExpr:
+		if _, isSel := c.info().Selections[f]; !isSel {
+			cmp, _ = c.info().Uses[f.Sel].(*types.Func)
+		}
+	}
+	if cmp == nil || c.t.funcs[cmp.Origin()] == nil {
+		trFail(call.Pos(), "compare.Sort with a comparator that is not a translated function is outside the subset")
+	}
+	c.fn.deps = append(c.fn.deps, c.t.funcs[cmp.Origin()])
+	lt := c.leanType(c.typeOf(call.Args[0]), call.Pos())
+	ty := lt + " → " + lt
+	c.norder++
+	n := "ext" + itoa(c.norder)
+	c.extraParams = append(c.extraParams, "("+n+" : "+ty+")")
+	c.extraTypes = append(c.extraTypes, ty)
+	c.externals = append(c.externals, n+" = "+trSrcText(c.t.l.fset, call)+" [sort.Slice as a function of the slice: SOME permutation sorted by "+cmp.FullName()+"]")
+	return c.store(call.Args[0], "("+n+" "+c.expr(call.Args[0])+")", call.Pos(), k), true
+}
+
+// ---------------------------------------------------------------------------------------------- closure records
+
+type trClosureRec struct {
+	obj     types.Object
+	lit     *ast.CompositeLit
+	written []types.Object // captured variables that the literals assign (through or by rebinding), in declaration order
+}
+
+// closureRecLit: &T{F: func…, …} with at least one function literal that assigns a captured variable
+func (c *trCtx) closureRecLit(e ast.Expr) *ast.CompositeLit {
+	u, ok := trUnparen(e).(*ast.UnaryExpr)
+	if !ok || u.Op != token.AND {
+		return nil
+	}
+	cl, ok := u.X.(*ast.CompositeLit)
+	if !ok || len(cl.Elts) == 0 {
+		return nil
+	}
+	writes := false
+	for _, el := range cl.Elts {
+		kv, ok := el.(*ast.KeyValueExpr)
+		if !ok {
+			return nil
+		}
+		fl, ok := kv.Value.(*ast.FuncLit)
+		if !ok {
+			return nil
+		}
+		if len(c.assignedIn(fl.Body)) > 0 {
+			writes = true
+		}
+	}
+	if !writes {
+		return nil
+	}
+	return cl
+}
+
+// closureRecOf: the closure record a local variable is defined as (`x := &T{…}` anywhere in the function), found syntactically
+func (c *trCtx) closureRecOf(o types.Object) *trClosureRec {
+	if o == nil || c.fn.decl == nil || c.fn.decl.Body == nil {
+		return nil
+	}
+	var res *trClosureRec
+	ast.Inspect(c.fn.decl.Body, func(n ast.Node) bool {
+		as, ok := n.(*ast.AssignStmt)
+		if !ok || as.Tok != token.DEFINE || len(as.Lhs) != 1 || len(as.Rhs) != 1 {
+			return true
+		}
+		id, ok := as.Lhs[0].(*ast.Ident)
+		if !ok || c.info().Defs[id] != o {
+			return true
+		}
+		if cl := c.closureRecLit(as.Rhs[0]); cl != nil {
+			rec := &trClosureRec{obj: o, lit: cl}
+			seen := map[types.Object]bool{}
+			for _, el := range cl.Elts {
+				fl := el.(*ast.KeyValueExpr).Value.(*ast.FuncLit)
+				for _, w := range c.assignedIn(fl.Body) {
+					if !seen[w] {
+						seen[w] = true
+						rec.written = append(rec.written, w)
+					}
+				}
+			}
+			sort.Slice(rec.written, func(i, j int) bool { return rec.written[i].Pos() < rec.written[j].Pos() })
+			res = rec
+		}
+		return false
+	})
+	return res
+}
+
+// closureRecStmt: `x := &T{F: func…}`: one definition per literal; x itself has no value
+func (c *trCtx) closureRecStmt(x *ast.AssignStmt, k trK) (trLines, bool) {
+	if x.Tok != token.DEFINE || len(x.Lhs) != 1 || len(x.Rhs) != 1 {
+		return nil, false
+	}
+	id, ok := x.Lhs[0].(*ast.Ident)
+	if !ok {
+		return nil, false
+	}
+	rec := c.closureRecOf(c.info().Defs[id])
+	if rec == nil {
+		return nil, false
+	}
+	if c.loop != nil || c.inLambda > 0 {
+		trFail(x.Pos(), "a closure record inside a loop is outside the subset")
+	}
+	isWritten := map[types.Object]bool{}
+	for _, w := range rec.written {
+		isWritten[w] = true
+	}
+	for _, el := range rec.lit.Elts {
+		kv := el.(*ast.KeyValueExpr)
+		field := kv.Key.(*ast.Ident).Name
+		fl := kv.Value.(*ast.FuncLit)
+		fsig, ok := c.typeOf(fl).(*types.Signature)
+		if !ok || fsig.Variadic() {
+			trFail(fl.Pos(), "this function literal is outside the subset")
+		}
+		cbFn := &trFunc{unit: c.fn.unit, pkg: c.fn.pkg, decl: c.fn.decl, obj: c.fn.obj, leanName: c.fn.leanName + "." + trMangle(id.Name) + "." + trMangle(field)}
+		cbFn.effect = c.t.nodeEffect(c.fn.pkg, fl.Body)
+		cc := &trCtx{t: c.t, fn: cbFn, names: map[types.Object]string{}, used: map[string]bool{"fuel": true}, opaqueParams: map[types.Object]bool{}, inCallback: true}
+		// captured variables: the written ones first (the state), then the ones only read
+		var ps []string
+		var captured []types.Object
+		for _, w := range rec.written {
+			captured = append(captured, w)
+		}
+		usedHere := map[types.Object]bool{}
+		ast.Inspect(fl.Body, func(n ast.Node) bool {
+			if id, ok := n.(*ast.Ident); ok {
+				if o := c.info().Uses[id]; o != nil {
+					usedHere[o] = true
+				}
+			}
+			return true
+		})
+		for _, o := range c.freeVars(nil, fl.Body) {
+			if !isWritten[o] && usedHere[o] {
+				captured = append(captured, o)
+			}
+		}
+		for _, o := range captured {
+			d := cc.paramDecl(o.(*types.Var), fl.Pos())
+			if d == "" {
+				trFail(fl.Pos(), "the closure captures %s, whose type is not translatable", o.Name())
+			}
+			ps = append(ps, d)
+		}
+		for i := 0; i < fsig.Params().Len(); i++ {
+			d := cc.paramDecl(fsig.Params().At(i), fl.Pos())
+			if d == "" {
+				trFail(fl.Pos(), "a parameter of this function literal has an untranslatable type")
+			}
+			ps = append(ps, d)
+		}
+		through := map[types.Object]bool{}
+		for _, o := range cc.assignedIn2(true, fl.Body) {
+			through[o] = true
+		}
+		cbFn.mutObjs = append(cbFn.mutObjs, rec.written...)
+		for i := 0; i < fsig.Params().Len(); i++ {
+			v := fsig.Params().At(i)
+			switch v.Type().Underlying().(type) {
+			case *types.Pointer, *types.Map:
+				if through[v] {
+					cbFn.mut = append(cbFn.mut, i)
+					cbFn.mutObjs = append(cbFn.mutObjs, v)
+				}
+			}
+		}
+		var rts []string
+		for _, m := range cbFn.mutObjs {
+			rts = append(rts, cc.leanType(m.Type(), fl.Pos()))
+		}
+		cc.nresults = fsig.Results().Len()
+		for i := 0; i < fsig.Results().Len(); i++ {
+			if fsig.Results().At(i).Name() != "" {
+				trFail(fl.Pos(), "named results of a function literal are outside the subset")
+			}
+			cc.resultTypes = append(cc.resultTypes, fsig.Results().At(i).Type())
+			rts = append(rts, cc.leanType(fsig.Results().At(i).Type(), fl.Pos()))
+		}
+		cbFn.resType = "Unit"
+		if len(rts) == 1 {
+			cbFn.resType = rts[0]
+		} else if len(rts) > 1 {
+			cbFn.resType = "(" + strings.Join(rts, " × ") + ")"
+		}
+		term := cc.stmts(fl.Body.List, func() trLines {
+			if fsig.Results().Len() > 0 {
+				trFail(fl.End(), "internal: control reaches the end of a closure with results")
+			}
+			return cc.returnTerm(nil, fl.End())
+		})
+		ps = append(ps, cc.extraParams...)
+		if len(cc.extraParams) > 0 {
+			trFail(fl.Pos(), "a closure of a closure record that needs extra parameters (map orders, untranslated calls) is outside the subset")
+		}
+		rt := cbFn.resType
+		if cbFn.effect {
+			rt = "Outcome " + rt
+		}
+		var names []string
+		for _, w := range rec.written {
+			names = append(names, w.Name())
+		}
+		var b strings.Builder
+		for _, a := range cc.aux {
+			b.WriteString(a + "\n")
+		}
+		b.WriteString("/-- Go: the closure `" + field + "` of the record `" + id.Name + "` in `" + c.fn.leanName + "` (" + c.t.l.relPos(fl.Pos()) +
+			"); the captured variables it assigns (" + strings.Join(names, ", ") + ") are passed in and returned first -/\ndef " + cbFn.leanName + " " + strings.Join(ps, " ") + " : " + rt + " :=\n" +
+			term.indent(2).String() + "\n")
+		c.aux = append(c.aux, b.String())
+		c.fn.deps = append(c.fn.deps, cbFn.deps...)
+	}
+	return k(), true
+}
+
+// ---------------------------------------------------------------------------------------------- effect calls
+
+// effectCallWrites: for a call of an untranslated function of /repo that gets pointers to translated state: the variables it can
+// write through (receiver variable first, then the written captured variables of the closure records among the arguments)
+func (c *trCtx) effectCallWrites(x *ast.CallExpr) ([]types.Object, bool) {
+	fo := c.calledFunc(x)
+	if fo == nil || fo.Pkg() == nil || !strings.HasPrefix(fo.Pkg().Path(), trKnutPath) {
+		return nil, false
+	}
+	if _, pinned := trPinned[fo.Origin().FullName()]; pinned || c.t.funcs[fo.Origin()] != nil {
+		return nil, false
+	}
+	var writes []types.Object
+	seen := map[types.Object]bool{}
+	add := func(o types.Object) {
+		if o != nil && !seen[o] {
+			seen[o] = true
+			writes = append(writes, o)
+		}
+	}
+	hasRec := false
+	for _, a := range x.Args {
+		if id, ok := trUnparen(a).(*ast.Ident); ok {
+			if rec := c.closureRecOf(c.info().Uses[id]); rec != nil {
+				hasRec = true
+			}
+		}
+	}
+	if !hasRec {
+		return nil, false
+	}
+	if sel, ok := trUnparen(x.Fun).(*ast.SelectorExpr); ok {
+		if s, isSel := c.info().Selections[sel]; isSel && s.Kind() == types.MethodVal {
+			if id, ok := trUnparen(sel.X).(*ast.Ident); ok {
+				if v, ok := c.info().Uses[id].(*types.Var); ok {
+					if _, isPtr := v.Type().Underlying().(*types.Pointer); isPtr {
+						add(v)
+					}
+				}
+			}
+		}
+	}
+	for _, a := range x.Args {
+		if id, ok := trUnparen(a).(*ast.Ident); ok {
+			if rec := c.closureRecOf(c.info().Uses[id]); rec != nil {
+				for _, w := range rec.written {
+					add(w)
+				}
+			}
+		}
+	}
+	return writes, true
+}
+
+// effectCall: `lhs… := recv.M(args…)` / `recv.M(args…)` for an effect call
+func (c *trCtx) effectCall(call *ast.CallExpr, lhs []ast.Expr, define bool, k trK) (trLines, bool) {
+	writes, ok := c.effectCallWrites(call)
+	if !ok {
+		return nil, false
+	}
+	if c.loop != nil || c.inLambda > 0 || c.inCallback {
+		trFail(call.Pos(), "an effect call inside a loop or closure is outside the subset")
+	}
+	fo := c.calledFunc(call)
+	// every argument: a closure record, or a call of a translated constructor of closures (which captures nothing of this function)
+	for _, a := range call.Args {
+		if id, ok := trUnparen(a).(*ast.Ident); ok && c.closureRecOf(c.info().Uses[id]) != nil {
+			continue
+		}
+		if inner, ok := trUnparen(a).(*ast.CallExpr); ok && len(inner.Args) == 0 {
+			if g := c.calledFunc(inner); g != nil && c.t.funcs[g.Origin()] != nil {
+				if ret, _ := c.t.closureCtor(c.t.funcs[g.Origin()]); ret != nil {
+					c.fn.deps = append(c.fn.deps, c.t.funcs[g.Origin()])
+					continue
+				}
+			}
+		}
+		trFail(a.Pos(), "argument of the effect call %s: neither a closure record nor a call of a translated constructor of closures without arguments", fo.FullName())
+	}
+	var tys, names []string
+	for _, w := range writes {
+		tys = append(tys, c.leanType(w.Type(), call.Pos()))
+		names = append(names, w.Name())
+	}
+	res := fo.Type().(*types.Signature).Results()
+	if len(lhs) != 0 && len(lhs) != res.Len() {
+		trFail(call.Pos(), "effect call with %d results assigned to %d targets", res.Len(), len(lhs))
+	}
+	for i := 0; i < res.Len(); i++ {
+		tys = append(tys, c.leanType(res.At(i).Type(), call.Pos()))
+	}
+	ty := tys[0]
+	if len(tys) > 1 {
+		ty = "(" + strings.Join(tys, " × ") + ")"
+	}
+	c.norder++
+	n := "ext" + itoa(c.norder)
+	c.extraParams = append(c.extraParams, "("+n+" : "+ty+")")
+	c.extraTypes = append(c.extraTypes, ty)
+	c.externals = append(c.externals, n+" = "+trSrcText(c.t.l.fset, call)+" [EFFECT CALL of "+fo.FullName()+": the new values of "+strings.Join(names, ", ")+", then its results]")
+	if define {
+		for _, l := range lhs {
+			c.declare(l)
+		}
+	}
+	total := len(tys)
+	proj := func(i int) string {
+		if total == 1 {
+			return n
+		}
+		p := n + strings.Repeat(".2", i)
+		if i < total-1 {
+			p += ".1"
+		}
+		return p
+	}
+	var body func(i int) trLines
+	body = func(i int) trLines {
+		if i < len(writes) {
+			v := writes[i].(*types.Var)
+			return trLet(c.local(v), c.leanType(v.Type(), call.Pos()), trOne(proj(i)), body(i+1))
+		}
+		j := i - len(writes)
+		if j >= len(lhs) {
+			return k()
+		}
+		return c.store(lhs[j], proj(i), call.Pos(), func() trLines { return body(i + 1) })
+	}
+	return body(0), true
+}
+
+// ---------------------------------------------------------------------------------------------- interface arguments
+
+// ifaceArg: an argument of pointer type passed for a parameter of a sum-type interface: the constructor of its dynamic type
+func (c *trCtx) ifaceArg(paramTy types.Type, a ast.Expr, s string) string {
+	n, ok := paramTy.(*types.Named)
+	if !ok || n.Obj().Pkg() == nil {
+		return s
+	}
+	if _, isIface := n.Underlying().(*types.Interface); !isIface {
+		return s
+	}
+	at := c.typeOf(a)
+	if types.Identical(at, paramTy) {
+		return s
+	}
+	if c.t.unitOfPkg(n.Obj().Pkg()) == nil {
+		return s
+	}
+	for _, alt := range c.t.implementers(n) {
+		if types.Identical(alt.typ, at) {
+			return "(" + c.leanType(paramTy, a.Pos()) + "." + alt.ctor + " " + s + ")"
+		}
+	}
+	trFail(a.Pos(), "a value of type %s passed as %s: not a declared implementer", at, paramTy)
+	return s
+}
+
+// ---------------------------------------------------------------------------------------------- a writer parameter moved into a struct
+
+type trWriterMove struct {
+	param types.Object // the io.Writer parameter
+	local types.Object // p of `p := F(w)`
+	field string       // the field of p's struct that holds the writer
+	stmt  *ast.AssignStmt
+}
+
+// movedField: F is a translated function `func F(w io.Writer) *T { return &T{fld: w} }`: the field
+func (t *trTranslator) movedField(tf *trFunc) string {
+	if tf == nil || tf.decl == nil || tf.decl.Body == nil || len(tf.decl.Body.List) != 1 {
+		return ""
+	}
+	sig := tf.obj.Type().(*types.Signature)
+	if sig.Params().Len() != 1 || !trIsWriter(sig.Params().At(0).Type()) {
+		return ""
+	}
+	ret, ok := tf.decl.Body.List[0].(*ast.ReturnStmt)
+	if !ok || len(ret.Results) != 1 {
+		return ""
+	}
+	e := trUnparen(ret.Results[0])
+	if u, ok := e.(*ast.UnaryExpr); ok && u.Op == token.AND {
+		e = u.X
+	}
+	cl, ok := e.(*ast.CompositeLit)
+	if !ok {
+		return ""
+	}
+	field := ""
+	for _, el := range cl.Elts {
+		kv, ok := el.(*ast.KeyValueExpr)
+		if !ok {
+			return ""
+		}
+		if id, ok := trUnparen(kv.Value).(*ast.Ident); ok && tf.pkg.info.Uses[id] == sig.Params().At(0) {
+			if field != "" {
+				return ""
+			}
+			field = kv.Key.(*ast.Ident).Name
+		}
+	}
+	return field
+}
+
+// writerMoveOf: the function moves its io.Writer parameter into a local struct with its first use (`p := F(w)`), and never uses it again
+func (t *trTranslator) writerMoveOf(f *trFunc) *trWriterMove {
+	if f.decl == nil || f.decl.Body == nil {
+		return nil
+	}
+	sig := f.obj.Type().(*types.Signature)
+	var w *types.Var
+	for i := 0; i < sig.Params().Len(); i++ {
+		if trIsWriter(sig.Params().At(i).Type()) {
+			if w != nil {
+				return nil
+			}
+			w = sig.Params().At(i)
+		}
+	}
+	if w == nil {
+		return nil
+	}
+	info := f.pkg.info
+	uses := 0
+	ast.Inspect(f.decl.Body, func(n ast.Node) bool {
+		if id, ok := n.(*ast.Ident); ok && info.Uses[id] == w {
+			uses++
+		}
+		return true
+	})
+	if uses != 1 {
+		return nil
+	}
+	for _, s := range f.decl.Body.List {
+		as, ok := s.(*ast.AssignStmt)
+		if !ok || as.Tok != token.DEFINE || len(as.Lhs) != 1 || len(as.Rhs) != 1 {
+			continue
+		}
+		call, ok := trUnparen(as.Rhs[0]).(*ast.CallExpr)
+		if !ok || len(call.Args) != 1 {
+			continue
+		}
+		id, ok := trUnparen(call.Args[0]).(*ast.Ident)
+		if !ok || info.Uses[id] != w {
+			continue
+		}
+		var fo *types.Func
+		switch fn := trUnparen(call.Fun).(type) {
+		case *ast.Ident:
+			fo, _ = info.Uses[fn].(*types.Func)
+		case *ast.SelectorExpr:
+			if _, isSel := info.Selections[fn]; !isSel {
+				fo, _ = info.Uses[fn.Sel].(*types.Func)
+			}
+		}
+		if fo == nil {
+			return nil
+		}
+		field := t.movedField(t.funcs[fo.Origin()])
+		lid, ok := as.Lhs[0].(*ast.Ident)
+		if field == "" || !ok {
+			return nil
+		}
+		// the local must not be returned or stored (then the sink would outlive the function through it)
+		local := info.Defs[lid]
+		escapes := false
+		ast.Inspect(f.decl.Body, func(n ast.Node) bool {
+			if r, ok := n.(*ast.ReturnStmt); ok {
+				for _, e := range r.Results {
+					if id := trBaseIdent(e); id != nil && info.Uses[id] == local {
+						escapes = true
+					}
+				}
+			}
+			return true
+		})
+		if escapes {
+			return nil
+		}
+		return &trWriterMove{param: w, local: local, field: field, stmt: as}
+	}
+	return nil
+}
+
+// mutName: the current value of a parameter that is written through (the moved writer lives in a field of a local)
+func (c *trCtx) mutName(m types.Object) string {
+	if mv := c.writerMove; mv != nil && mv.param == m {
+		if n, ok := c.names[mv.local]; ok {
+			return n + "." + trMangle(mv.field)
+		}
+	}
+	return c.names[m]
+}
+
+// ---------------------------------------------------------------------------------------------- if … { return } as a Flow join
+
+// trFlowJoin: functions in which `if c { …return… }` followed by more statements is a JOIN in Flow (`match (if c then … Flow.ret v …
+// else Flow.next st) with | Flow.ret v => v | Flow.next st => rest`) instead of the rest of the block continued inside both branches
+// (which doubles the rest at every such `if`: journal.Print has one per directive kind).  Opt-in per function: the shape of the
+// generated definitions of the functions translated before stays as their agreement proofs expect it.
+var trFlowJoin = map[string]bool{
+	trKnutPath + "lib/journal.Print": true,
+}
+
+// onlyReturnsLeave: the statements leave their block by `return` only (no break/continue of an enclosing loop, no panic)
+func trOnlyReturnsLeave(nodes []ast.Node) bool {
+	ok := true
+	var visit func(n ast.Node, inLoop bool)
+	visit = func(n ast.Node, inLoop bool) {
+		ast.Inspect(n, func(m ast.Node) bool {
+			switch x := m.(type) {
+			case *ast.BranchStmt:
+				if !inLoop {
+					ok = false
+				}
+			case *ast.ExprStmt:
+				if call, isCall := x.X.(*ast.CallExpr); isCall {
+					if id, isID := call.Fun.(*ast.Ident); isID && id.Name == "panic" {
+						ok = false
+					}
+				}
+			case *ast.ForStmt:
+				if m != n {
+					visit(x.Body, true)
+					return false
+				}
+			case *ast.RangeStmt:
+				if m != n {
+					visit(x.Body, true)
+					return false
+				}
+			case *ast.FuncLit:
+				return false
+			}
+			return true
+		})
+	}
+	for _, n := range nodes {
+		if n != nil && !isNilNode(n) {
+			visit(n, false)
+		}
+	}
+	return ok
+}
+
+func (c *trCtx) flowJoinWanted(nodes []ast.Node) bool {
+	root := c.fn.leanName
+	if i := strings.Index(root, "."); i >= 0 && c.fn.decl != nil && c.fn.decl.Recv == nil {
+		root = root[:i]
+	}
+	return trFlowJoin[c.fn.pkg.path+"."+root] && !c.pureMode() && trOnlyReturnsLeave(nodes)
+}
+
+// flowJoin: `if cond { a } else { b }` (some path returns) followed by k
+func (c *trCtx) flowJoin(cond string, a func(k trK) trLines, b func(k trK) trLines, nodes []ast.Node, pos token.Pos, k trK) trLines {
+	vars := c.assignedIn(nodes...)
+	tuple, _ := c.tupleOf(vars)
+	effect := c.fn.effect
+	saved := c.loop
+	c.loop = &trLoopCtx{kind: "rangerec", flow: true, wrapOk: effect, outer: saved}
+	next := func() trLines {
+		if effect {
+			return trOne("Outcome.ok (Flow.next " + tuple + ")")
+		}
+		return trOne("(Flow.next " + tuple + ")")
+	}
+	ta := a(next)
+	tb := b(next)
+	c.loop = saved
+	t := trIte(cond, ta, tb)
+	r := c.fresh("r")
+	st := c.fresh("st")
+	if len(vars) == 1 {
+		st = c.names[vars[0]]
+	}
+	rest := c.unpack(st, vars, k())
+	after := trLines{"match " + r + " with", "| Flow.ret v => " + c.retRaw("v", pos)[0], "| Flow.next " + st + " =>"}
+	after = append(after, rest.indent(2)...)
+	if !effect {
+		return trLet(r, "", t, after)
+	}
+	out := trLines{"Outcome.bind ("}
+	out = append(out, t.indent(2)...)
+	out[len(out)-1] += ") (fun " + r + " =>"
+	out = append(out, after.indent(2)...)
+	out[len(out)-1] += ")"
+	return out
 }
